@@ -321,13 +321,13 @@ fn stats_line<M: CheckFileDbMap>(m: &M) -> String {
 extern "C" {
     fn kill(pid: i32, sig: i32) -> i32;
     fn getpid() -> i32;
-    fn setrlimit(resource: i32, rlim: *const [u64; 2]) -> i32;
-    fn getrlimit(resource: i32, rlim: *mut [u64; 2]) -> i32;
-    fn signal(signum: i32, handler: usize) -> usize;
+    pub(crate) fn setrlimit(resource: i32, rlim: *const [u64; 2]) -> i32;
+    pub(crate) fn getrlimit(resource: i32, rlim: *mut [u64; 2]) -> i32;
+    pub(crate) fn signal(signum: i32, handler: usize) -> usize;
 }
-const RLIMIT_FSIZE: i32 = 1;
-const SIGXFSZ: i32 = 25;
-const SIG_IGN: usize = 1;
+pub(crate) const RLIMIT_FSIZE: i32 = 1;
+pub(crate) const SIGXFSZ: i32 = 25;
+pub(crate) const SIG_IGN: usize = 1;
 
 impl State {
     fn exec(&mut self, line: &str) -> String {
